@@ -290,9 +290,20 @@ func (rm *room) build(actor user, prevs []string, authFrom map[skey]string, typ 
 		return nil, err
 	}
 	for _, s := range rm.extraSigners(typ, sk, content, actor.id) {
-		ev = ev.Sign(string(s.Name), s.Current().ID, s.Current().Priv)
+		ev = rm.countersign(ev, s)
 	}
 	return ev, nil
+}
+
+// countersign adds s's signature. The result is re-parsed: PDU.Sign of a room
+// version 12 event returns the embedded older event type, whose
+// AuthEventIDs() lacks the implicit create event.
+func (rm *room) countersign(ev gmsl.PDU, s *world.Server) gmsl.PDU {
+	signed := ev.Sign(string(s.Name), s.Current().ID, s.Current().Priv)
+	if p := rm.parse(signed.JSON()); p != nil {
+		return p
+	}
+	return signed
 }
 
 // allowedBy asks the library whether ev is allowed by the given events.
